@@ -933,6 +933,49 @@ def _container_kind(source):
     return "xls" if source.lower().endswith(".xls") else "xlsx"
 
 
+# attributes ODF defines for the elements of a sheet that the reader has no need to understand (merged cells, typed
+# values, styles, formulas, protection): whatever text they hold, the file is read or refused as data.  The repeat
+# counts are left to C15 (a huge count makes any reader build a huge table).
+ODS_ELEMENTS = ("table:table", "table:table-row", "table:table-cell", "text:p")
+ODS_ATTRIBUTES = ("table:number-columns-spanned", "table:number-rows-spanned", "table:number-matrix-columns-spanned",
+                  "table:number-matrix-rows-spanned", "office:value-type", "office:value", "office:date-value",
+                  "office:boolean-value", "office:time-value", "table:style-name", "table:formula", "table:protected",
+                  "table:content-validation-name", "xml:id")
+ODS_ATTRIBUTE_VALUES = ("", "x3", "3.0", "-1", "0", "2", "99999999999999999999", "NaN", "\u00b2", "true")
+
+
+def _ods_with_attribute(data, element, occurrence, attribute, value):
+    """The ODS archive ``data`` with ``attribute="value"`` added to the ``occurrence``-th ``element`` of content.xml."""
+    import zipfile
+    from xml.sax.saxutils import quoteattr
+
+    with zipfile.ZipFile(io.BytesIO(data)) as archive:
+        members = [(info, archive.read(info.filename)) for info in archive.infolist()]
+    out = io.BytesIO()
+    changed = False
+    with zipfile.ZipFile(out, "w") as archive:
+        for info, content in members:
+            if info.filename == "content.xml":
+                text = content.decode("utf-8")
+                starts = [m.start() for m in re.finditer("<%s(?=[ />])" % re.escape(element), text)]
+                if occurrence < len(starts):
+                    at = starts[occurrence] + 1 + len(element)
+                    text = text[:at] + " %s=%s" % (attribute, quoteattr(value)) + text[at:]
+                    changed = True
+                content = text.encode("utf-8")
+            archive.writestr(info, content)
+    return out.getvalue() if changed else None
+
+
+def attribute_cases():
+    for element in ODS_ELEMENTS:
+        for occurrence in (0, 1, 5):
+            for attribute in ODS_ATTRIBUTES:
+                for value in ODS_ATTRIBUTE_VALUES:
+                    yield {"kind": "container", "source": "gen:ods", "fault": "attribute", "element": element,
+                           "offset": occurrence, "attr": attribute, "value": value, "bit": 0}
+
+
 def check_container_case(sub, case):
     source, fault, offset = case["source"], case["fault"], case["offset"]
     scratch = env()
@@ -946,6 +989,10 @@ def check_container_case(sub, case):
     elif fault == "bitflip":
         offset = offset % len(data)
         data = data[:offset] + bytes([data[offset] ^ (1 << (case["bit"] % 8))]) + data[offset + 1:]
+    elif fault == "attribute":
+        data = _ods_with_attribute(data, case["element"], offset, case["attr"], case["value"])
+        if data is None:
+            return
     else:
         raise HarnessError("malformed container case %r" % (case,))
     fmt = "ods" if kind == "ods" else "excel"
@@ -973,7 +1020,8 @@ def check_container_case(sub, case):
     if obs.timeout:
         classes.append("timeout|container")
     classes.extend(_outcome_classes(part, obs))
-    _report(sub, obs, case, "container:" + kind, "%s, %s at offset %d" % (source, fault, offset))
+    _report(sub, obs, case, "container:" + kind, "%s, %s at offset %d%s" % (
+        source, fault, offset, "" if fault != "attribute" else " (%s %s=%r)" % (case["element"], case["attr"], case["value"])))
     sample = None
     if _take_sample():
         sample = {"case": case, "outcomes": sorted(set(obs.outcomes))}
@@ -1187,7 +1235,8 @@ def run(ctx):
         for source in container_sources():
             sizes[source] = len(scratch.container_bytes(source))
         cases = (list(single_cell_cases()) + list(cleared_example_cases()) + list(data_cell_cases())
-                 + list(bytes_cases()) + list(truncation_cases(sizes)) + list(directory_bitflip_cases(sizes)))
+                 + list(bytes_cases()) + list(truncation_cases(sizes)) + list(directory_bitflip_cases(sizes))
+                 + list(attribute_cases()))
         shards = max(1, ctx.workers * 4)
 
         def shard(index):
